@@ -53,3 +53,8 @@ def run(ctx):
     rep.rule("MEAS-8", "wire timestamps enter the measurement through a conversion that cannot wrap (seconds * 10^9 in >= 80 "
                        "bits), time differences on signed operands - shared with C16 EXACT-1", floor=2)
     _c16.check_exact(rep, ctx.prog("default"), "MEAS-8")
+    rep.rule("MEAS-9", "exchanges are told apart by sequence id: the generator behind Delay_Req / Pdelay_Req ids returns "
+                       "the current value and advances by wrapping_add(1) (a generator that sticks or skips lets a late "
+                       "response pair with a newer request) - shared with C10 TX-3", floor=1)
+    from rules import c10 as _c10
+    _c10.check_generator(rep, ctx.prog("default"), "MEAS-9")
